@@ -213,7 +213,20 @@ func (s *taskSide) predicateEdges(f *ssa.Function, cancel int64) (acq, can []edg
 		if h == nil || h.Blocks == nil || FnPkg(h) != FnPkg(f) {
 			continue
 		}
-		if s.turnPredicate(h, cancel) {
+		// analyse the helper with its parameters bound to the arguments of this call
+		saved := s.bind
+		s.bind = map[*ssa.Parameter]ssa.Value{}
+		for k, v := range saved {
+			s.bind[k] = v
+		}
+		for i, prm := range h.Params {
+			if i < len(c.Call.Args) {
+				s.bind[prm] = c.Call.Args[i]
+			}
+		}
+		isTurn := s.turnPredicate(h, cancel)
+		s.bind = saved
+		if isTurn {
 			acq = append(acq, edge{b, succFor(pos, true)})
 			can = append(can, edge{b, succFor(pos, false)})
 		}
@@ -294,3 +307,75 @@ func returnsFresh(h *ssa.Function) bool {
 }
 
 var _ = types.Typ
+
+// scanFunction: the function that walks the task results (tests a result's error field): processBlock itself or a
+// helper it calls; for a helper also the call instruction in processBlock.
+func scanFunction(p *Prog, s *taskSide) (*ssa.Function, *ssa.Call) {
+	has := func(f *ssa.Function) bool {
+		found := false
+		for _, b := range f.Blocks {
+			if ifi := blockIf(b); ifi != nil {
+				if x, _, ok := nilTest(ifi.Cond); ok && fieldVarOfLoad(x) == s.errField {
+					found = true
+				}
+			}
+		}
+		return found
+	}
+	if has(s.parent) {
+		return s.parent, nil
+	}
+	for _, h := range p.helperClosure(s.parent) {
+		if !has(h) {
+			continue
+		}
+		var call *ssa.Call
+		eachInstr(s.parent, func(i ssa.Instruction) {
+			if c, ok := i.(*ssa.Call); ok && c.Call.StaticCallee() == h {
+				call = c
+			}
+		})
+		if call != nil {
+			return h, call
+		}
+	}
+	return s.parent, nil
+}
+
+// atomicOnlyParam: parameter prm of helper h is used only as the address argument of sync/atomic calls (or handed on
+// to helpers that do the same).
+func atomicOnlyParam(h *ssa.Function, prm *ssa.Parameter, depth int) bool {
+	if depth > 3 || h.Blocks == nil {
+		return false
+	}
+	refs := prm.Referrers()
+	if refs == nil {
+		return true
+	}
+	for _, ref := range *refs {
+		if _, isDbg := ref.(*ssa.DebugRef); isDbg {
+			continue
+		}
+		c := callOf(ref)
+		if c == nil {
+			return false
+		}
+		callee := c.StaticCallee()
+		if callee != nil && callee.Pkg != nil && callee.Pkg.Pkg.Path() == "sync/atomic" && len(c.Args) > 0 && c.Args[0] == ssa.Value(prm) {
+			continue
+		}
+		if callee != nil && callee.Blocks != nil && FnPkg(callee) == FnPkg(h) {
+			okAll := true
+			for i, a := range c.Args {
+				if a == ssa.Value(prm) && (i >= len(callee.Params) || !atomicOnlyParam(callee, callee.Params[i], depth+1)) {
+					okAll = false
+				}
+			}
+			if okAll {
+				continue
+			}
+		}
+		return false
+	}
+	return true
+}
